@@ -202,6 +202,8 @@ STRATA = {
     "rootnode": (CORE_OFF + ["rootnode"], 0.1),
     # fields of type [[T]]
     "nestedlists": (CORE_OFF + ["nestedlists"], 0.06),
+    # stitched lists nested two deep, every level owned by another service
+    "chain": (["chain"], 0.03),
 }
 
 
